@@ -232,12 +232,22 @@ def run(facts, rep, tier):
             for n in f.nodes():
                 if n.k == 'call' and n.callee_base() == 'fread' and not n.callee_in_root:
                     a = n.ns('args'); ps = [p['decl'] for p in f.d['params']]
-                    ok = len(a) == 4 and all(x is not None and x.k == 'ref' for x in a[:3]) and [x.decl for x in a[:3]] == ps[:3] and a[3].is_field('m_file')
-                    rep.check(ok, 'FI.4', 'read(buffer, size, count) -> fread(buffer, size, count, m_file)', n.shortloc(), f'fread arguments {[x.text()[:12] for x in a if x is not None]}', key='FI.4|fread', fn=f.name)
+                    fwd = len(a) == 4 and len(ps) == 3 and all(x is not None and x.k == 'ref' and x.decl in ps for x in a[:3])
+                    if fwd:
+                        ok = [x.decl for x in a[:3]] == ps[:3] and a[3] is not None and a[3].is_field('m_file')
+                        rep.check(ok, 'FI.4', 'read(buffer, size, count) -> fread(buffer, size, count, m_file)', n.shortloc(), f'fread arguments {[x.text()[:12] for x in a if x is not None]}', key='FI.4|fread', fn=f.name)
+                    elif len(a) == 4 and a[3] is not None and not a[3].is_field('m_file') and a[3].k == 'member':
+                        rep.violation('FI.4', f'{f.name}: fread reads from m_file', n.shortloc(), f'fread is given the stream `{a[3].text()[:30]}`', key='FI.4|fread', fn=f.name)
+                    else:
+                        rep.inconclusive('FI.4', f'{f.name}: fread(ptr, size, count, m_file)', n.shortloc(), f'fread is not called through the (buffer, size, count) overload: arguments {[x.text()[:14] for x in a if x is not None]} not followed')
                 if n.k == 'call' and n.callee_base() == 'fwrite' and not n.callee_in_root:
                     a = n.ns('args'); ps = [p['decl'] for p in f.d['params']]
-                    ok = len(a) == 4 and len(ps) == 3 and all(x is not None and x.k == 'ref' for x in a[:3]) and [x.decl for x in a[:3]] == [ps[0], ps[2], ps[1]] and a[3].is_field('m_file')
-                    rep.check(ok, 'FI.4', 'write(data, size, elementSize) -> fwrite(data, elementSize, size, m_file)', n.shortloc(), f'fwrite arguments {[x.text()[:12] for x in a if x is not None]}', key='FI.4|fwrite', fn=f.name)
+                    fwd = len(a) == 4 and len(ps) == 3 and all(x is not None and x.k == 'ref' and x.decl in ps for x in a[:3])
+                    if fwd:
+                        ok = [x.decl for x in a[:3]] == [ps[0], ps[2], ps[1]] and a[3] is not None and a[3].is_field('m_file')
+                        rep.check(ok, 'FI.4', 'write(data, size, elementSize) -> fwrite(data, elementSize, size, m_file)', n.shortloc(), f'fwrite arguments {[x.text()[:12] for x in a if x is not None]}', key='FI.4|fwrite', fn=f.name)
+                    else:
+                        rep.inconclusive('FI.4', f'{f.name}: fwrite(data, elementSize, size, m_file)', n.shortloc(), f'fwrite is not called through the (data, size, elementSize) overload: arguments {[x.text()[:14] for x in a if x is not None]} not followed')
         ws = [f for f in facts.by_name.get(f'{F}::write', []) if len(f.d['params']) == 1 and 'basic_string' in f.d['params'][0]['ctype']]
         for f in ws:
             calls = [n for n in f.nodes() if n.k == 'call' and strip_targs(n.calleeq or '') == f'{F}::write']
@@ -246,7 +256,15 @@ def run(facts, rep, tier):
         rs = fns['readStr'][0]
         cons = [n for n in rs.nodes() if n.k in ('construct', 'initlist') and len([a for a in n.ns('args') if a is not None]) >= 2 and 'basic_string' in (n.d.get('class') or n.type or '')]
         ok = any(any(x.k == 'call' and x.callee_base() in ('size', 'length') for a in c.ns('args')[1:2] if a is not None for x in a.walk()) for c in cons)
-        rep.check(ok, 'FI.4', 'readStr() builds the string from (pointer, size) — NUL-safe', rs.shortloc(), 'readStr() builds the string from a C string (stops at the first NUL)', key='FI.4|readstr', fn=rs.name)
+        # refutation: a std::string built from a lone `const char *` (or anything measured with strlen)
+        def real_args(n): return [a for a in n.ns('args') if a is not None and not (a.type or '').startswith('std::allocator<')]
+        one_arg = [n for n in rs.nodes() if n.k in ('construct', 'initlist') and 'basic_string' in (n.d.get('class') or n.type or '') and len(real_args(n)) == 1
+                   and ((real_args(n)[0].type or '').replace('const ', '').strip() in ('char *', 'unsigned char *', 'signed char *'))]
+        strl = [n for n in rs.nodes() if n.k == 'call' and n.callee_base() in ('strlen', 'strnlen')]
+        inst = 'readStr() builds the string with an explicit length — NUL-safe'
+        if ok: rep.ok('FI.4', inst, rs.shortloc())
+        elif one_arg or strl: rep.violation('FI.4', inst, (one_arg or strl)[0].shortloc(), 'readStr() builds the string from a C string (stops at the first NUL)', key='FI.4|readstr', fn=rs.name)
+        else: rep.inconclusive('FI.4', inst, rs.shortloc(), 'how readStr() builds its result was not recognised (neither (pointer, size) nor a lone C string)')
     # ---- FI.5 ----------------------------------------------------------------------------------------------------------------------
     cl = fns['close'][0]
     for is_open in (True, False):
